@@ -49,6 +49,12 @@ CONSTANTS
     MaxFaults,  \* at most this many corrupted entries
     PoolSet,    \* subset of BOOLEAN: Hydration is given a thread pool (the elements of a multi-output value are
                 \* then serialised concurrently, in any completion order)
+    LateSet,    \* subset of BOOLEAN: TRUE = the component was registered (its plugin was loaded) only AFTER the process
+                \* had already loaded an earlier archive, i.e. after the process's first look-up of a component by name
+                \* (a long-running process: load, load a further plugin, collect, load); FALSE = registered before
+    LookupMode, \* "live": a look-up by name finds every component registered at the time of the look-up (specified) |
+                \* "snapshot": it answers from the table of the process's first look-up (exists so that TLC can show
+                \* that FaultIsolation is able to fail)
     AssembleMode \* "index": results are assembled in element order (specified) | "completion": in the order
                 \* in which the pool finished them (exists so that TLC can show that RoundTrip is able to fail)
 
@@ -101,7 +107,7 @@ NoArgs      == [shape |-> "none", v |-> <<>>]
 Elem(ls, cmd, args) == [lines |-> ls, cmd |-> cmd, args |-> args]
 
 NoValue(o, b) == [kind |-> "none", multi |-> FALSE, failed |-> o \in FailOutcomes, outcome |-> o, backed |-> b, filtered |-> FALSE,
-                  saveas |-> "none", elems |-> <<>>]
+                  late |-> FALSE, saveas |-> "none", elems |-> <<>>]
 LineSet  == {<<>>} \cup {<<a>> : a \in Atoms}
 RECURSIVE SeqsUpTo(_, _)
 SeqsUpTo(S, n) == IF n = 0 THEN {<<>>} ELSE SeqsUpTo(S, n - 1) \cup {Append(q, x) : q \in SeqsUpTo(S, n - 1), x \in S}
@@ -119,17 +125,18 @@ ArgsOf(k, c, j, multi) ==
 SaveAsOf(k) == IF k \in {"cfile", "ccmd"} THEN {"none"} ELSE SaveAsSet
 EntrySpace(c) ==
     (IF TRUE \in FilterSet THEN
-       { [kind |-> k, multi |-> TRUE, failed |-> FALSE, outcome |-> "ok", backed |-> TRUE, filtered |-> TRUE, saveas |-> "none",
+       { [kind |-> k, multi |-> TRUE, failed |-> FALSE, outcome |-> "ok", backed |-> TRUE, filtered |-> TRUE, late |-> FALSE, saveas |-> "none",
           elems |-> [j \in 1..Len(lss) |-> Elem(lss[j], CmdOf(k, c, j), ArgsOf(k, c, j, TRUE))]]
            : k \in Kinds \cap {"command", "ccmd", "cfile", "datasource"},
              lss \in (SeqsUpTo({q \in SeqsUpTo(LineSet \ {<<>>}, Budget) : q # <<>>}, MaxElems) \ {<<>>}) }
      ELSE {}) \cup
-    { [kind |-> k, multi |-> FALSE, failed |-> FALSE, outcome |-> "ok", backed |-> b, filtered |-> FALSE, saveas |-> sa,
+    { [kind |-> k, multi |-> FALSE, failed |-> FALSE, outcome |-> "ok", backed |-> b, filtered |-> FALSE, late |-> lt, saveas |-> sa,
        elems |-> <<Elem(ls, CmdOf(k, c, 1), ArgsOf(k, c, 1, FALSE))>>]
-        : k \in Kinds, sa \in SaveAsSet, ls \in Contents, b \in BackedSet } \cup
-    { [kind |-> k, multi |-> TRUE, failed |-> FALSE, outcome |-> "ok", backed |-> b, filtered |-> FALSE, saveas |-> sa,
+        : k \in Kinds, sa \in SaveAsSet, ls \in Contents, b \in BackedSet, lt \in LateSet } \cup
+    { [kind |-> k, multi |-> TRUE, failed |-> FALSE, outcome |-> "ok", backed |-> b, filtered |-> FALSE, late |-> lt, saveas |-> sa,
        elems |-> [j \in 1..Len(lss) |-> Elem(lss[j], CmdOf(k, c, j), ArgsOf(k, c, j, TRUE))]]
-        : k \in Kinds, sa \in SaveAsSet \ {"file"}, lss \in (SeqsUpTo(Contents, MaxElems) \ {<<>>}), b \in BackedSet } \cup
+        : k \in Kinds, sa \in SaveAsSet \ {"file"}, lss \in (SeqsUpTo(Contents, MaxElems) \ {<<>>}), b \in BackedSet,
+          lt \in LateSet } \cup
     (IF MayFail THEN {NoValue(o, b) : o \in OutcomeSet, b \in BackedSet} ELSE {})
 Applicable(e) == e.saveas \in SaveAsOf(e.kind)
 
@@ -158,8 +165,8 @@ NoFlight == [c |-> 0, todo |-> {}, fin |-> <<>>]
 Absent == [present |-> FALSE, multi |-> FALSE, elems |-> <<>>]
 
 -----------------------------------------------------------------------------
-NoEntry == [kind |-> "none", multi |-> FALSE, failed |-> FALSE, outcome |-> "ok", backed |-> FALSE, filtered |-> FALSE, saveas |-> "none",
-            elems |-> <<>>]
+NoEntry == [kind |-> "none", multi |-> FALSE, failed |-> FALSE, outcome |-> "ok", backed |-> FALSE, filtered |-> FALSE, late |-> FALSE,
+            saveas |-> "none", elems |-> <<>>]
 
 (* Is the failure of e on record under the key that is persisted?  dr files every other exception under the     *)
 (* component and its registry points; datasource.invoke files ContentException / CalledProcessError /           *)
@@ -241,9 +248,14 @@ Corrupt ==
     /\ UNCHANGED <<entries, pos, hyd, loaded, pooled, inflight>>
 
 FileAt(rel) == (CHOOSE d \in data : d.rel = rel).file
+(* dr.get_component_by_name: the name recorded in the document is mapped back to the component.  Every component  *)
+(* that is registered when the archive is loaded is found, also one whose plugin was loaded after the process had  *)
+(* already answered look-ups (an earlier archive).                                                                 *)
+Findable(c) == LookupMode = "live" \/ ~entries[c].late
 Loadable(c) ==
     LET d == meta[c] IN
     /\ d.present /\ d.readable /\ d.shape /\ d.name \in Comp /\ d.hasres
+    /\ Findable(d.name)
     /\ \A j \in DOMAIN d.res : \E x \in data : x.rel = d.res[j].rel
 
 (* load-time filtering of a filterable spec: the last `n` matching lines are kept (all lines match here) *)
